@@ -166,6 +166,13 @@ def parse_value(p, ty):
         if ty.k in ('double', 'float'):
             bits = int(v[2:], 16)
             return V('float', ty, val=struct.unpack('<d', struct.pack('<Q', bits))[0])
+        if ty.k == 'x86_fp80':
+            # 0xK<20 hex digits>: 80-bit extended precision; decoded to the nearest double (long double arithmetic is only met in
+            # library code such as std::generate_canonical and is treated as double by the executor)
+            h = v[3:] if v[2] in 'KLMHR' else v[2:]
+            bits = int(h, 16); sign = bits >> 79; exp = (bits >> 64) & 0x7fff; mant = bits & ((1 << 64) - 1)
+            val = 0.0 if (exp == 0 and mant == 0) else (mant / float(1 << 63)) * 2.0 ** (exp - 16383)
+            return V('float', ty, val=-val if sign else val)
         raise SyntaxError('hex const of type %s' % ty)
     if k == 'cstr':
         raw = v[2:-1]
